@@ -171,7 +171,7 @@ func runC11(cfg *vh.Config) error {
 		inputs = append(inputs, input{s, "seq2adj", cfg.Tier == "thorough" || r.Chance(40)})
 	}
 	// ---- stream 2: corpus windows, unmutated and mutated
-	nWin := cfg.Scale(250, 6000)
+	nWin := cfg.Scale(250, 4500)
 	for i := 0; i < nWin; i++ {
 		w := window(r, vh.Pick(r, corpus), 10)
 		if i%3 != 0 {
@@ -186,7 +186,7 @@ func runC11(cfg *vh.Config) error {
 	}
 	// ---- stream 3: grammar-generated
 	g := &srcGen{r: r.Fork("gen")}
-	nGen := cfg.Scale(200, 6000)
+	nGen := cfg.Scale(200, 4500)
 	for i := 0; i < nGen; i++ {
 		s := g.file(5)
 		if i%2 == 1 {
@@ -195,7 +195,7 @@ func runC11(cfg *vh.Config) error {
 		inputs = append(inputs, input{s, "grammar", true})
 	}
 	// ---- stream 4: soup and raw bytes
-	nSoup := cfg.Scale(150, 4000)
+	nSoup := cfg.Scale(150, 3000)
 	for i := 0; i < nSoup; i++ {
 		if i%5 == 4 {
 			inputs = append(inputs, input{string(r.Bytes(r.Range(0, 24))), "bytes", true})
